@@ -818,7 +818,10 @@ func runC23() {
 						fail(fmt.Errorf("reference batch: %v", err))
 						return
 					}
-					if m.Default != refs.Cfg["0|"] {
+					mu.Lock()
+					def := refs.Cfg["0|"]
+					mu.Unlock()
+					if m.Default != def {
 						fail(fmt.Errorf("default configuration at the start of a reference batch differs from the fresh-process default"))
 						return
 					}
